@@ -29,6 +29,10 @@ fn main() {
     let seed = std::env::var("VERIF_SEED").ok().and_then(|s| s.parse::<u64>().ok()).unwrap_or(1);
     let threads = std::env::var("AVM_THREADS").ok().and_then(|s| s.parse().ok()).unwrap_or(16);
     let scale = std::env::var("VERIF_SCALE").ok().and_then(|s| s.parse().ok()).unwrap_or(1.0);
+    let (seed, tier, scale) = match replay.as_ref().and_then(|p| avm::run::replay_settings(p)) {
+        Some(x) => x,
+        None => (seed, tier, scale),
+    };
     let verif_dir = PathBuf::from(std::env::var("AVM_VERIF_DIR").unwrap_or_else(|_| "/verif".into()));
     let anthem_build = std::env::var("AVM_ANTHEM_BUILD").map(PathBuf::from).unwrap_or_else(|_| verif_dir.join(".build/anthem"));
     let cfg = Config { prop: args[1].clone(), tier, seed, threads, verif_dir, anthem_build, replay, scale };
